@@ -43,8 +43,10 @@ def parseSetter (s : String) : Option Setter :=
   | ["fa", k, v] => do pure (.formAdd (← k.toNat?) (← v.toNat?))
   | ["bf", id] => do pure (.before (← id.toNat?))
   | ["af", id] => do pure (.after (← id.toNat?))
-  | ["wr", ids] => do pure (.wrap (← natList ids))
-  | ["tw", ids] => do pure (.twrap (← natList ids))
+  | ["wr", ids] => do pure (.wrap (← natList ids) false)
+  | ["wrf", ids] => do pure (.wrap (← natList ids) true)
+  | ["tw", ids] => do pure (.twrap (← natList ids) false)
+  | ["twf", ids] => do pure (.twrap (← natList ids) true)
   | ["rc", n] => do pure (.retryCount (← n.toNat?))
   | ["ri", id] => do pure (.retryInterval (← id.toNat?))
   | ["cs", id] => do pure (.retryCondSet (← id.toNat?))
